@@ -6,8 +6,13 @@ ALL = ["C%02d" % i for i in range(1, 19)]
 GEN = (" Second tie (regenerated on every run): translate/py2coq.py translates tcp_signatures_match, calculate_window_multiplier, find_tcp_match, the "
        "TCPResult distance, round_frequency, guess_distance, should_fingerprint, the three valid_for_*_fingerprint gates, MTUPacketSignature.from_mss, "
        "mtu_signatures_match, find_mtu_match, find_http_match, headers_match, HTTP.software, the dishonest flag and TCPOptions.parse (the option walker) from /repo's CURRENT source to Gallina (fail-closed "
-       "subset incl. for/while loops, early return, optional values) and coq/Gen/GenP.v proves the generated definitions equal to the hand-written models "
-       "for all inputs, so for these functions the theorems are re-checked against what the code says now.")
+       "subset incl. for/while loops, early return, optional values), one generated file per group of functions (match / select / uptime / mtu / options / http), "
+       "and coq/Gen/GenP_<group>.v (GenOptP.v, GenHdrP.v) prove the generated definitions equal to the hand-written models "
+       "for all inputs, so for these functions the theorems are re-checked against what the code says now; a property only depends on its own groups.")
+GENIMP = (" Second tie (regenerated on every run): translate/imp2coq.py translates the five helpers of pyp0f/impersonate/tcp.py (_impersonate_ip, _impersonate_options, "
+          "_impersonate_window, _impersonate_tcp, _impersonate_payload) from /repo's CURRENT source into the random-tape monad, draws in the source's evaluation order; "
+          "coq/Gen/GenImpP.v proves them equal to the hand-written impersonation model for every tape, and coq/Gen/GenImpC.v restates the C05/C14 theorems for the "
+          "translated code on parsed signatures.")
 TIE = ("Tie to /repo: the hand-written Gallina model is extracted (ExtrOcamlBasic) and run against the working tree's pyp0f on "
        "boundary-directed generated cases plus exhaustive sweeps of the small sub-domains; every disagreement is a replayable "
        "failing input. Assurance = the weaker of proof and tie.")
@@ -125,7 +130,7 @@ CLAIMED = {
                   "mss*N bounds, window scale vs exws, own/peer timestamp vs ts1-/ts2+ and SYN vs SYN+ACK, window for '*' and literal, IPv4 id in the four "
                   "df/id cases, payload by class): fixed value overrides, admissible hint kept, inadmissible/missing hint replaced by an admissible value. "
                   + TIE + " Tie here = the model reproduces bytes(out) of the real impersonate_tcp byte for byte under the recorded random tape; in addition "
-                  "an admissibility predicate written from the property text (not from the code) judges every output field by field.",
+                  "an admissibility predicate written from the property text (not from the code) judges every output field by field." + GENIMP,
              note="Trusted: as C01/C03; random.* replaced by a recording stub; MSS hints under mtu*N are not judged (they depend on the divisor search of "
                   "known finding KF-window-search); calls with an explicit uptime argument are excluded from the own-timestamp check. No axioms.",
              tech="Coq proof (per-field hint theorems over a tape-driven model) + byte-exact tape replay against impersonate_tcp + property-text oracle", ref="DESIGN.md sections 4 C14, 10"),
@@ -137,7 +142,8 @@ CLAIMED = {
                   "C05_supported_no_raise; (3) one machine-checked C05_refuted_<class> per known finding: a concrete satisfiable signature, admissible base and tape "
                   "on which the output fails. The full statement is false of the code (8 known-finding classes, listed in known_findings.json). " + TIE +
                   " Signatures are generated from witnesses (real packets), the oracle is the verified extractor+matcher applied to bytes(out), the model must "
-                  "reproduce bytes(out) byte for byte under the recorded tape, and every case inside the theorem's domain is checked to pass.",
+                  "reproduce bytes(out) byte for byte under the recorded tape (on EVERY case, also inside the known-finding classes), and every case inside the theorem's domain "
+                  "is checked to pass; a failure is a KNOWN-FINDING only when the model of the unchanged code fails on that very case and tape too." + GENIMP,
              note="Trusted: as C01/C03; 'satisfiable' is read relative to the base's type and IP version; Scapy's option padding and field packing are modelled in enc_out and exercised by the byte-exact "
                   "tie; failures on signatures inside a known-finding class are reported as KNOWN-FINDING, anything else as VIOLATION. No axioms.",
              tech="Coq proof (impersonate -> encode -> dissect -> match = Exact on Supported; refutations by vm_compute elsewhere) + witness-derived differential run with verified oracle and byte-exact tape replay", ref="DESIGN.md sections 4 C05, 10"),
